@@ -110,7 +110,7 @@ CLAIMED = {
          'Trusted: Lean kernel, Mathlib, chain generators, independent link Jacobians and finite differences in the harness; np.linalg.inv is an oracle.',
          'Lean 4 induction over links (superposition of the Newton-Euler recursion) + differential correspondence + identity falsifier on the MR functions and Arm methods',
          'DESIGN.md section 5 C08'),
- 'C10': ('Proof: machine-checked theorems (Lean 4) about a state-machine model of the Stewart platform (IK helper, validate chain with corrective actions and re-validation, both FK paths, reverse FK, move, spinCustom, inverseJacobian, randomPos) in which every value a numeric solver returns is a universally quantified oracle input: '
+ 'C10': ('Proof: machine-checked theorems (Lean 4) about a state-machine model of the Stewart platform (IK helper, validate chain with corrective actions and re-validation, both FK paths, reverse FK, FK over a bottom pose given by the caller, move, spinCustom, inverseJacobian, randomPos) in which every value a numeric solver returns is a universally quantified oracle input: '
          'every public call preserves coherence of the published state and so does every history of any length (induction over the history); whenever validate(), an unprotected IK or forward FK, or validate(True) reports valid, every enabled constraint holds of the state left behind; the Jacobian/force queries return both plates to the poses they found. For the reversed FK (over the reals, rigid plate poses): every constraint is invariant under moving both plates by one rigid motion, validate() takes no action on a state that meets every enabled constraint, hence the verdict a reversed FK returns is true of the re-expressed state it leaves, with the top plate back where it was. '
          'The theorems hold for every scalar instance, including the Float instance that is run. The model is tied to sp_model.py by executing random histories on the real SP and on the model (solver outputs recorded in the harness) and comparing plates, joints, lengths, relative transform and verdicts after every call; coherence, constraints and purity are also evaluated directly on the real object. '
          'The exception fallback between the two FK solvers and what FK does after an upside-down repair are modelled (the repaired pose itself is an oracle input); the verdict of a reversed or protected FK is decided on the implementation only.',
